@@ -12,6 +12,6 @@ FIELDS = ["str", "val", "query", "raw_query_string"]
 def run(out, sc, tier, seed):
     run_model(out, sc, "MC_Query", ["Inv_Update", "Inv_Extend", "Inv_With", "Inv_Without", "Inv_UpdateIdempotent"], label="MC_Query")
     out.exhaustive = True
-    n = 12000 if tier == "quick" else 300000
+    n = 12000 if tier == "quick" else 100000
     run_progs(out, sc, "C12", {"gen": "progs", "n": n, "seed": seed, "fields": FIELDS, "typed": True, "depths": [1, 2, 3],
                                "ops": ["with_query", "extend_query", "update_query", "without_query_params"]}, "query")
